@@ -13,7 +13,6 @@
 //! and recognised by the harness, the expected replay is computed from the model,
 //! and the file layout is parsed by an independent CRC-64/ECMA-182 reader.
 use std::collections::BTreeSet;
-use std::os::unix::fs::FileExt;
 use std::path::{Path, PathBuf};
 use turdb::storage::{MmapStorage, SyncMode, Wal};
 use vcore::{json, Check, Ctx, Reporter, Spec, Value};
@@ -366,7 +365,7 @@ impl Crc {
             let pno = u32::from_le_bytes(h[8..12].try_into().unwrap());
             let l = identify(pg);
             out.push(match (ok, l) {
-                (true, Lbl::Zero) if h.iter().all(|&x| x == 0) => "ZEROFRAME(valid)".to_string(),
+                (true, Lbl::Zero) if h.iter().all(|&x| x == 0) => "ZEROFRAME".to_string(),
                 (true, l) => format!("{l}(fid{fid},pg{pno})"),
                 (false, l) => format!("bad:{l}"),
             });
@@ -1025,46 +1024,44 @@ fn damage(f: &Fault, orig: &[u8], nframes: usize) -> Option<usize> {
 
 struct SegFile {
     seq: u64,
-    file: std::fs::File,
+    /// pristine bytes saved right after the history ran
     orig: Vec<u8>,
 }
 
-fn apply_fault(segs: &[SegFile], f: &Fault) -> std::io::Result<()> {
-    let find = |s: u64| segs.iter().find(|x| x.seq == s).ok_or_else(|| std::io::Error::new(std::io::ErrorKind::NotFound, "segment"));
+fn fault_seg(f: &Fault) -> u64 {
     match *f {
-        Fault::Trunc { seg, off } => find(seg)?.file.set_len(off),
-        Fault::ZeroSector { seg, k } => {
-            let s = find(seg)?;
-            let a = (k * 512) as usize;
-            let b = (a + 512).min(s.orig.len());
-            s.file.write_all_at(&vec![0u8; b - a], a as u64)
-        }
-        Fault::Flip { seg, off, mask } => {
-            let s = find(seg)?;
-            s.file.write_all_at(&[s.orig[off as usize] ^ mask], off)
-        }
-        Fault::ZeroExtend { seg, n } => {
-            let s = find(seg)?;
-            s.file.set_len(s.orig.len() as u64 + n)
-        }
+        Fault::Trunc { seg, .. } | Fault::ZeroSector { seg, .. } | Fault::Flip { seg, .. } | Fault::ZeroExtend { seg, .. } => seg,
     }
 }
 
-fn undo_fault(segs: &[SegFile], f: &Fault) -> std::io::Result<()> {
-    let seg = match *f {
-        Fault::Trunc { seg, .. } | Fault::ZeroSector { seg, .. } | Fault::Flip { seg, .. } | Fault::ZeroExtend { seg, .. } => seg,
-    };
-    let s = segs.iter().find(|x| x.seq == seg).unwrap();
+/// bytes of the faulted segment
+fn corrupted(orig: &[u8], f: &Fault) -> Vec<u8> {
+    let mut b = orig.to_vec();
     match *f {
-        Fault::Trunc { off, .. } => s.file.write_all_at(&s.orig[off as usize..], off),
+        Fault::Trunc { off, .. } => b.truncate(off as usize),
         Fault::ZeroSector { k, .. } => {
             let a = (k * 512) as usize;
-            let b = (a + 512).min(s.orig.len());
-            s.file.write_all_at(&s.orig[a..b], a as u64)
+            let e = (a + 512).min(b.len());
+            b[a..e].fill(0);
         }
-        Fault::Flip { off, .. } => s.file.write_all_at(&s.orig[off as usize..off as usize + 1], off),
-        Fault::ZeroExtend { .. } => s.file.set_len(s.orig.len() as u64),
+        Fault::Flip { off, mask, .. } => b[off as usize] ^= mask,
+        Fault::ZeroExtend { n, .. } => b.resize(orig.len() + n as usize, 0),
     }
+    b
+}
+
+/// (re)write EVERY segment file from the saved pristine bytes, with the fault applied to its segment.
+/// Called before every Wal::open: opening a log may trim the invalid tail of the latest segment,
+/// so files are never patched in place or reused between cases.
+fn materialise(dir: &Path, segs: &[SegFile], f: Option<&Fault>) -> std::io::Result<()> {
+    for s in segs {
+        let path = dir.join(format!("wal.{:06}", s.seq));
+        match f {
+            Some(f) if fault_seg(f) == s.seq => std::fs::write(&path, corrupted(&s.orig, f))?,
+            _ => std::fs::write(&path, &s.orig)?,
+        }
+    }
+    Ok(())
 }
 
 /// run the history, check that the files are exactly what the model says, then apply the given faults
@@ -1101,22 +1098,14 @@ fn fault_state(h: &mut Harness, rep: &mut Reporter, ops: &[Op], only: Option<Fau
     if model.segs.iter().filter(|s| !s.1.is_empty()).count() > 1 {
         rep.count("fault_states_with_frames_in_several_segments", 1);
     }
-    let segs: Vec<SegFile> = files
-        .into_iter()
-        .map(|(seq, orig)| {
-            let file = std::fs::OpenOptions::new().read(true).write(true).open(h.dir.join(format!("wal.{:06}", seq))).expect("open segment for fault injection");
-            SegFile { seq, file, orig }
-        })
-        .collect();
+    let segs: Vec<SegFile> = files.into_iter().map(|(seq, orig)| SegFile { seq, orig }).collect();
     let faults = match only {
         Some(f) => vec![f],
         None => faults_for(&model),
     };
     let mut n = 0u64;
     for f in &faults {
-        let seg = match *f {
-            Fault::Trunc { seg, .. } | Fault::ZeroSector { seg, .. } | Fault::Flip { seg, .. } | Fault::ZeroExtend { seg, .. } => seg,
-        };
+        let seg = fault_seg(f);
         let Some(si) = model.segs.iter().position(|s| s.0 == seg) else { continue };
         let dmg = damage(f, &segs[si].orig, model.segs[si].1.len());
         if dmg.is_none() && !matches!(f, Fault::ZeroExtend { .. }) {
@@ -1125,12 +1114,9 @@ fn fault_state(h: &mut Harness, rep: &mut Reporter, ops: &[Op], only: Option<Fau
         }
         let case = || json!({"part": "fault", "ops": enc_ops(ops), "fault": f.to_json()});
         rep.begin_case(&case().to_string());
-        if apply_fault(&segs, f).is_err() {
-            rep.note("fault injection I/O error (harness)");
-            continue;
-        }
+        // every case starts from files re-created from the saved pristine bytes (Wal::open may trim the latest segment)
+        materialise(&h.dir, &segs, Some(f)).expect("materialise corrupted log directory");
         let obs = h.recover();
-        undo_fault(&segs, f).expect("restore segment after fault");
         n += 1;
         rep.count("corruptions_tried", 1);
         rep.count(&format!("corruptions_{}", f.kind()), 1);
@@ -1160,10 +1146,9 @@ fn fault_state(h: &mut Harness, rep: &mut Reporter, ops: &[Op], only: Option<Fau
             continue;
         };
         let files_now = || -> String {
-            let _ = apply_fault(&segs, f);
-            let s = show_files(&h.crc, &h.dir);
-            let _ = undo_fault(&segs, f);
-            s
+            // what recovery was given (before any trimming by Wal::open)
+            let _ = materialise(&h.dir, &segs, Some(f));
+            show_files(&h.crc, &h.dir)
         };
         if strict.len() < lenient.len() && classify(&expect_from(&lenient), &obs).is_none() {
             // a cut exactly at a frame boundary leaves no bad frame behind (only the write-order gap);
@@ -1230,7 +1215,7 @@ impl Check for C03 {
         let mut s = Spec::new(
             "C03",
             "model_checking",
-            "part 1: every sequence of operations on a real Wal (write(tbl,page) x6, write_batch x3, rotate, truncate, reopen, reopen+write x2 = 14 ops; 2 file ids x 3 pages; every frame carries a unique recognisable image) up to the stated depth, in SyncMode::Full and again in SyncMode::Off, plus a 7-op sub-alphabet one level deeper; breadth-first (shortest first), every history executed from an empty directory, all oracles evaluated after every history, a history is not extended once replay diverges from the model. Distinct = distinct (alphabet, sync mode, op sequence); non-trivial = writes at least one frame. part 2: for every distinct final file shape of histories up to the fault depth: every truncation offset k*512 and b-1,b,b+1 around every frame boundary b, zero-fill of every 512-byte sector, flips of every header byte (masks 01, 80) and 65 payload bytes per frame (mask FF), zero-extension of the last segment by 1..2 frames; one case = one fault on one file shape.",
+            "part 1 (histories): every sequence of operations on a real Wal in an empty directory, breadth-first (shortest first), every history re-executed from scratch and all oracles (recover, recover_for_file per file id, read_page) evaluated after EVERY history; a history is not extended once replay diverges from the model. 2 file ids x 3 pages, every frame carries a unique recognisable image. Alphabets: full = write(tbl,page) x6, write_batch[2] x3, rotate, truncate, reopen, reopen+write x2 (14 ops) to depth 4 (quick) / 5 (thorough) in SyncMode::Full and to depth 3 / 4 in SyncMode::Off; medium (10 ops) to depth 6 (thorough only); small (7 ops) to depth 5 / 7. read_page is evaluated on histories up to length 3 / 4. Distinct = distinct (alphabet, sync mode, op sequence); non-trivial = writes at least one frame. part 2 (faults): for every distinct final file shape (segment numbers + (table,page) sequence per segment) of the medium-alphabet histories up to length 3 / 4: every truncation offset k*512 and b-1,b,b+1 around every frame boundary b, zero-fill of every 512-byte sector, flips of every header byte (masks 01 and 80) and of 65 payload bytes per frame (mask FF), zero-extension of the last segment by 1, 512, F-1, F, F+1, 2F bytes (F = frame size 16416); one case = one fault on one file shape; expected = frames before the first damaged frame in write order.",
         );
         s.assumptions = &[
             "expected replay comes from the harness's own model (frames since last truncate, segment order) and its own page images; file layout is parsed by an independent CRC-64/ECMA-182 reader",
